@@ -47,6 +47,9 @@ type Lowerer struct {
 	atomIv map[string][2]*big.Int
 	linOf  map[string]*lin // exact linear form of an emitted expression
 	modOf  map[string]*lin // atom ≡ form (mod 2^64), one level
+	modAtoms, divAtoms map[string]modRec // atom = (mod f q) / (div f q), exact (smt_modq.go)
+	atomName map[string]string
+	hiAtoms  map[string]hiRec // H of a split X = H*2^k + L
 	wraps  int
 	Err    error
 	// profile knobs
@@ -61,7 +64,7 @@ const noCtx = 1 << 30
 
 func NewLowerer(be Backend, ts *TermStore) *Lowerer {
 	return &Lowerer{ts: ts, be: be, declSet: map[string]bool{}, memo: map[*Term]string{}, ivl: map[*Term][2]*big.Int{}, minCtx: noCtx,
-		facts: map[[2]uint32]bool{}, varLo: map[*Term]*big.Int{}, varHi: map[*Term]*big.Int{}, splits: map[string][2]string{}, loOf: map[string]splitRec{}, atomIv: map[string][2]*big.Int{}, linOf: map[string]*lin{}, modOf: map[string]*lin{}}
+		facts: map[[2]uint32]bool{}, varLo: map[*Term]*big.Int{}, varHi: map[*Term]*big.Int{}, splits: map[string][2]string{}, loOf: map[string]splitRec{}, atomIv: map[string][2]*big.Int{}, linOf: map[string]*lin{}, modOf: map[string]*lin{}, modAtoms: map[string]modRec{}, divAtoms: map[string]modRec{}, atomName: map[string]string{}, hiAtoms: map[string]hiRec{}}
 }
 
 func (l *Lowerer) decl(s string) {
@@ -374,6 +377,9 @@ func (l *Lowerer) lowerCommon(t *Term) string {
 		if x.Op == OBV2Int && y.Op == OBV2Int && x.A[0].W == y.A[0].W && !x.A[0].IsConst() && !y.A[0].IsConst() {
 			return l.T(l.ts.MulFull(x.A[0], y.A[0]))
 		}
+	}
+	if (t.Op == OIMod || t.Op == OIDiv) && l.be == BackendINT && !l.NoModForms && t.A[1].IsConst() && t.A[1].Big.Sign() > 0 {
+		return l.lowerIModDiv(t)
 	}
 	a := l.args(t)
 	bin := func(op string) string { return "(" + op + " " + a[0] + " " + a[1] + ")" }
@@ -864,6 +870,7 @@ func (l *Lowerer) split(ex string, lo, hi *big.Int, k uint) (string, string, *bi
 			l.asserts = append(l.asserts, fmt.Sprintf("(and (<= %s %s) (<= %s %s))", sInt(hlo), h, h, sInt(hhi)))
 			l.atomIv[h] = [2]*big.Int{hlo, hhi}
 			l.splits[key] = [2]string{h, a}
+			l.hiAtoms[h] = hiRec{x: lf, lo: a, k: k}
 			return h, a, hlo, hhi
 		}
 	}
@@ -877,6 +884,7 @@ func (l *Lowerer) split(ex string, lo, hi *big.Int, k uint) (string, string, *bi
 	l.asserts = append(l.asserts, fmt.Sprintf("(= %s (+ (* %s %s) %s))", ex, h, m, lw))
 	l.asserts = append(l.asserts, fmt.Sprintf("(and (<= 0 %s) (< %s %s) (<= %s %s) (<= %s %s))", lw, lw, m, sInt(hlo), h, h, sInt(hhi)))
 	l.splits[key] = [2]string{h, lw}
+	l.hiAtoms[h] = hiRec{x: lf, lo: lw, k: k}
 	return h, lw, hlo, hhi
 }
 
@@ -1135,6 +1143,28 @@ func (l *Lowerer) intBV(t *Term) string {
 		xl, xh := l.iv(t.A[0])
 		if t.A[1].IsConst() && t.A[1].ConstBig().Sign() > 0 {
 			c := t.A[1].ConstBig()
+			if t.Op == OURem && !l.NoModForms {
+				// operand built from specification remainders/quotients: keep the exact (mod · c) form (smt_modq.go)
+				save := l.minCtx
+				lf, lo, hi := l.U(t.A[0])
+				l.minCtx = save
+				if lo.Sign() >= 0 && hi.Cmp(maxOfW(t.W)) <= 0 {
+					spec := false
+					for _, n := range lf.order {
+						if _, ok := l.modAtoms[n]; ok {
+							spec = true
+						}
+						if _, ok := l.divAtoms[n]; ok {
+							spec = true
+						}
+					}
+					if spec {
+						h := new(big.Int).Sub(c, bigOne)
+						l.setiv(t, bigZero, h)
+						return l.modAtom(lf, c)
+					}
+				}
+			}
 			qv, rv := l.fresh("q", "Int"), l.fresh("r", "Int")
 			l.asserts = append(l.asserts, fmt.Sprintf("(= %s (+ (* %s %s) %s))", x, qv, c, rv))
 			l.asserts = append(l.asserts, fmt.Sprintf("(and (<= 0 %s) (< %s %s) (<= %s %s) (<= %s %s))", rv, rv, c, new(big.Int).Quo(xl, c), qv, qv, new(big.Int).Quo(xh, c)))
@@ -1158,6 +1188,12 @@ func (l *Lowerer) intBV(t *Term) string {
 		l.setiv(t, bigZero, yh)
 		return "(mod " + x + " " + y + ")"
 	case OInt2BV:
+		if in := t.A[0]; in.Op == OIMod && in.A[1].IsConst() && in.A[1].Big.Sign() > 0 && in.A[1].Big.Cmp(pow2(uint(t.W))) <= 0 {
+			// a Euclidean remainder by a constant that fits the word: no wrap
+			e := l.T(in)
+			l.setiv(t, bigZero, new(big.Int).Sub(in.A[1].Big, bigOne))
+			return e
+		}
 		e := l.T(t.A[0])
 		k := l.fresh("k", "Int")
 		r := l.fresh("w", "Int")
@@ -1247,7 +1283,7 @@ func coneOfInfluence(assumptions []*Term, goal *Term, inputs []InputVar) []*Term
 			hit := len(avars[i]) == 0
 			onlyInputs, sharesInput := true, false
 			for v := range avars[i] {
-				if !isInput[v] {
+				if !isInput[v] && !strings.HasPrefix(v.Name, "crt") { // crt*: quotient of a vCRTLift fact, a property of the inputs
 					onlyInputs = false
 					if vars[v] {
 						hit = true
